@@ -201,6 +201,21 @@ Section Flat.
         rewrite <- Hv, <- Hv'. apply (proj2 Hf). now rewrite Hv.
   Qed.
 
+  (* [operands_ok] only looks at the shapes *)
+  Lemma operands_ok_shapes vs ws : Forall2 (fun v w : T => shape v = shape w) vs ws -> operands_ok vs -> operands_ok ws.
+  Proof.
+    intros H2 Hok. unfold operands_ok in *.
+    assert (Hfs : full_shape ws = full_shape vs).
+    { unfold full_shape.
+      assert (Hc : Forall2 (fun v w : T => shape v = shape w /\ negb (all1 (shape v)) = negb (all1 (shape w))) vs ws).
+      { eapply Forall2_imp; [|exact H2]. intros v w H. split; auto. now rewrite H. }
+      pose proof (find_Forall2 _ _ _ _ _ Hc) as Hf.
+      destruct (find _ vs), (find _ ws); try contradiction; auto. }
+    rewrite Hfs. clear Hfs. generalize dependent (full_shape vs). intros s0 Hok.
+    induction H2 as [|v w l l' Hvw _ IH]; [constructor|].
+    inversion Hok as [|? ? Hv Hl]; subst. constructor; [rewrite <- Hvw; exact Hv | now apply IH].
+  Qed.
+
   Lemma tmap_flat (f g : A -> A) x x' : (forall a, f a = g a) -> flat_eq x x' -> flat_eq (tmap f x) (tmap g x').
   Proof. intros Hfg [Hp H]. split; [exact Hp|]. simpl. intros k Hk. rewrite Hfg. f_equal. now apply H. Qed.
 
